@@ -51,6 +51,10 @@ def verify_function(loader, con, case=None, label=None):
         for lab, cond in con.pre(c, a):
             ctx.assume(cond)
         old = con.snapshot(c, a) if hasattr(con, "snapshot") else None
+        pre_when = {id(r): r.when(c, a) for r in con.raises if r.pre_state}
+
+        def when_of(r):
+            return pre_when[id(r)] if r.pre_state else r.when(c, a)
         try:
             res = fn(**args)
         except PathEnd:
@@ -74,7 +78,7 @@ def verify_function(loader, con, case=None, label=None):
                 ctx.prove("%s:raises:unexpected_%s" % (q, ename), False, kind="raises", props=con.props,
                           role="prop", note=str(e)[:200])
             else:
-                w = sor(*[r.when(c, a) for r in whens])
+                w = sor(*[when_of(r) for r in whens])
                 ctx.prove("%s:raises:%s:only_when" % (q, "+".join(r.label for r in whens)), w, kind="raises",
                           props=whens[0].props if whens[0].props is not None else con.props,
                           role=whens[0].role)
@@ -88,7 +92,7 @@ def verify_function(loader, con, case=None, label=None):
             for lab, cond in con.hints(c, a, res):
                 ctx.prove("%s:hint:%s" % (q, lab), cond, kind="hint", props=con.props, role="aux")
         for r in con.raises:
-            ctx.prove("%s:raises:%s:whenever" % (q, r.label), snot(r.when(c, a)), kind="raises",
+            ctx.prove("%s:raises:%s:whenever" % (q, r.label), snot(when_of(r)), kind="raises",
                       props=r.props if r.props is not None else con.props, role=r.role)
         posts = con.post(c, a, res) if old is None else con.post(c, a, res, old)
         for cl in posts:
